@@ -139,7 +139,7 @@ def arith_shift(rep, prog, rule, floor=10):
         for g in [f] + f.closures():
             seeds = set()
             for c in g.calls():
-                if ACCUM_RE.search(c.name or "") and c.dest:
+                if c.dest and (ACCUM_RE.search(c.name or "") or _multiplies(prog, c)):
                     seeds.add(c.dest[0])
             if not seeds:
                 continue
@@ -169,6 +169,18 @@ PIXEL_LOAD_RE = re.compile(r"(^|::)(loadu_si128|loadu_si256|loadl_epi64|loadl_ep
                            r"mm_cvtsi32_si128_from_u8|vld1q?_u(8|16)\w*|load_v128|v128_load\w*)$")
 
 
+def _multiplies(prog, c, depth=0):
+    """the callee is a crate-local function whose body (two levels deep) contains a multiply(-add):
+    what it returns is a product / an accumulator, not raw pixel data"""
+    if depth > 2:
+        return False
+    for t in prog.call_targets(c):
+        for c2 in t.calls():
+            if ACCUM_RE.search(c2.name or "") or _multiplies(prog, c2, depth + 1):
+                return True
+    return False
+
+
 def pixel_sign(rep, prog, rule, floor=20):
     rep.rule(rule, "in the SIMD convolution kernels a vector that holds SOURCE PIXELS (loaded from a row "
              "of pixels and not yet multiplied) is never shifted right ARITHMETICALLY: pixel components "
@@ -185,6 +197,8 @@ def pixel_sign(rep, prog, rule, floor=20):
                 nm = c.name or ""
                 if ACCUM_RE.search(nm) and c.dest:
                     acc.add(c.dest[0])
+                elif c.dest and _multiplies(prog, c):
+                    acc.add(c.dest[0])          # a crate-local helper that multiplies-and-adds
                 if PIXEL_LOAD_RE.search(nm) and c.dest and c.args:
                     a0 = c.args[0]
                     t0 = g.local_ty(a0[1][0]) if a0[0] in ("c", "m") and a0[1] else ""
